@@ -482,8 +482,26 @@ class VC:
                                 counterexample=md, output=str(m)[:3000])
                 obs.append(ob)
             else:
-                obs.append(Obligation("%s :: %s" % (self.name, label), "vcgen/z3-%s" % z3.get_version_string(), UNDECIDED, s1, self.kind,
-                                      [self.fn], checks=1, detail="Z3 returned unknown (timeout %d ms)" % timeout_ms))
+                # unknown: look for a counterexample inside a concrete configuration (a model of the assumptions and the
+                # negated goal is a genuine counterexample of the VC whatever guided the search)
+                m2 = None
+                wit = getattr(self, "witness", None)
+                if wit:
+                    s2 = z3.Solver()
+                    s2.set("timeout", timeout_ms)
+                    for a in base + p + list(wit):
+                        s2.add(a)
+                    s2.add(z3.Not(g))
+                    if s2.check() == z3.sat:
+                        m2 = s2.model()
+                if m2 is not None:
+                    md = smt.model_dict(m2, 80)
+                    obs.append(Obligation("%s :: %s" % (self.name, label), "vcgen/z3-%s" % z3.get_version_string(), FAILED, s1, self.kind,
+                                          [self.fn], checks=1, detail="obligation `%s` does not follow; Z3 model found inside a concrete configuration: %s" % (
+                                              label, {k: md[k] for k in sorted(md) if "!" not in k}), counterexample=md, output=str(m2)[:3000]))
+                else:
+                    obs.append(Obligation("%s :: %s" % (self.name, label), "vcgen/z3-%s" % z3.get_version_string(), UNDECIDED, s1, self.kind,
+                                          [self.fn], checks=1, detail="Z3 returned unknown (timeout %d ms)" % timeout_ms))
         return obs
 
 
@@ -922,6 +940,9 @@ def postblock_vcs(read, T):
     vc.assume(idxf >= -(2 ** 17), idxf <= 2 ** 17, v("last_index") >= -(2 ** 17), v("last_index") <= 0)
     if "current_buffer_fill" in st.fields:
         vc.assume(v("current_buffer_fill") >= 0, v("current_buffer_fill") <= 2 ** 18)
+    for s_ in S.setup:
+        if s_[0] == "let":
+            env.exec_stmt(s_)        # locals of the setup the post block may refer to (sinc_len, oversampling_factor, ..)
     env.vars["idx"] = Val(idxf, "f64")
     env.vars["n"] = Val(z3.Int("n_final"), "usize")
     if not kind.fixed_in:
